@@ -956,6 +956,11 @@ fn special(em: &mut Emit) {
         ("fold:break-from-update", P::Label(b(P::Foreach(b(P::Range(0, 5, 1)), b(lit(0)), b(P::Ite(b(P::Var(0)), b(P::Var(1)), b(P::Var(0)))), None))), ins.clone(), 3),
         ("fold:nested", P::Foreach(b(comma(lit(1), lit(2))), b(lit(0)), b(P::Reduce(b(comma(lit(10), lit(20))), b(P::Id), b(P::Math('+', b(P::Id), b(P::Math('+', b(P::Var(0)), b(P::Var(1)))))))), None), ins.clone(), 3),
         ("fold:limit0-xs", comma(P::Foreach(b(P::Limit(0, b(P::Inputs))), b(lit(0)), b(P::Var(0)), None), P::Input), ins.clone(), 2),
+        // sources whose construction has effects: outside `take_prefix` (the manual does not fix whether `xs` or
+        // `init` is started first); the iterator model must still describe the code
+        ("hdr:reduce-input-input", P::Reduce(b(P::Input), b(P::Input), b(P::Var(0))), ins.clone(), 1),
+        ("hdr:foreach-first-inputs-empty-init", comma(P::First(b(P::Foreach(b(P::First(b(P::Inputs))), b(P::Empty), b(P::Id), None))), P::Input), ins.clone(), 1),
+        ("hdr:foreach-input-init-input", P::Foreach(b(comma(P::Input, lit(5))), b(P::Input), b(comma(P::Id, P::Var(0))), None), ins.clone(), 3),
         // closures
         ("clo:repeat", P::Limit(3, b(P::App(Dn::Repeat, vec![comma(lit(1), lit(2))]))), ins.clone(), 4),
         ("clo:repeat-input", P::App(Dn::Repeat, vec![P::Input]), vec![int(1), int(2)], 2),
